@@ -474,6 +474,11 @@ def describe(view, v, mon):
         if mon == "NoParkedGoroutine":
             for p in v["parked"]:
                 owner = [hc["sess"] for hc in v["hung"] if hc.get("goid") == p["id"] and hc["sess"] in view.hist]
+                if not owner and "cleanUp" in p["via"]:
+                    # a cleanUp started by the harness on behalf of a reader (sweep / shutdown): the session whose cleanUp never returned
+                    taken = {hc["sess"] for hc in v["hung"]}
+                    cand = [n for n, h in sorted(view.hist.items()) if h["clean"] == 1 and n not in taken]
+                    owner = cand[:1]
                 prev = view.prev_status(owner[0], 1 << 60)[0] if owner else "not_a_reader"
                 if "purgeChannels" in p["via"]:
                     prev = "n/a"
